@@ -59,11 +59,14 @@ func shift(fs []field, by int) []field {
 // ------------------------------------------------------------------------------------------------ byte operators
 
 type mutCase struct {
-	Fmt    string `json:"fmt"`
-	Op     string `json:"op"`
-	Anchor string `json:"anchor"`
-	K      int    `json:"k"`
-	Tag    int    `json:"tag"`
+	Fmts   string   `json:"fmts"` // "binary" / "json": the case applies to every format of that list; "list": the lists
+	Binary []string `json:"binary"`
+	JSON   []string `json:"json"`
+	Fmt    string   `json:"fmt"`
+	Op     string   `json:"op"`
+	Anchor string   `json:"anchor"`
+	K      int      `json:"k"`
+	Tag    int      `json:"tag"`
 }
 
 func varint(v uint64) []byte {
@@ -94,8 +97,21 @@ func applyMut(b []byte, fs []field, c mutCase) []byte {
 		return append(bytes.Clone(b), bytes.Repeat([]byte{byte(c.Tag)}, c.K)...)
 	}
 	idx := c.K
-	if c.Anchor == "tail" {
+	switch c.Anchor {
+	case "tail":
 		idx = len(fs) - 1 - c.K
+	case "small": // the K-th one-byte field with a small value: counts, lengths, tags and flags wherever they lie
+		idx = -1
+		n := 0
+		for i, f := range fs {
+			if f.n == 1 && f.off < len(b) && b[f.off] < 0x40 {
+				if n == c.K {
+					idx = i
+					break
+				}
+				n++
+			}
+		}
 	}
 	if idx < 0 || idx >= len(fs) {
 		return nil
@@ -361,11 +377,11 @@ func applyJSONMut(doc *jnode, c mutCase) string {
 		}
 	case "to-array":
 		if n.kind != 'a' {
-			ok = set(&jnode{kind: 'a', vals: []*jnode{n}})
+			ok = set(&jnode{kind: 'a', vals: []*jnode{n.clone()}})
 		}
 	case "to-object":
 		if n.kind != 'o' {
-			ok = set(&jnode{kind: 'o', keys: []string{"value"}, vals: []*jnode{n}})
+			ok = set(&jnode{kind: 'o', keys: []string{"value"}, vals: []*jnode{n.clone()}})
 		}
 	case "big-number":
 		if isNumber(n) {
@@ -384,7 +400,7 @@ func applyJSONMut(doc *jnode, c mutCase) string {
 			ok = set(lit(n.lit + ".5"))
 		}
 	case "deep":
-		w := n
+		w := n.clone()
 		for i := 0; i < 40; i++ {
 			w = &jnode{kind: 'a', vals: []*jnode{w}}
 		}
